@@ -15,6 +15,7 @@ import concurrent.futures as cf
 
 import cloudpickle
 
+from pyiron_workflow.nodes.function import as_function_node
 from pyiron_workflow.nodes.macro import as_macro_node
 
 from harness import nodes
@@ -61,7 +62,26 @@ def ME(self, x, y):
     return self.r
 
 
-MACROS = {"MA": (MA, ["x"], ["out"]), "MB": (MB, ["x", "y"], ["out"]), "MC": (MC, ["x", "y"], ["out"]),
+@as_function_node("y")
+def LinList(tag, k, a):
+    """a list for the For node to iterate over"""
+    v = nodes.lin(tag, k, [a])
+    return [v, v + 1, v + 2]
+
+
+@as_function_node("y")
+def SumList(tag, k, a):
+    return nodes.lin(tag, k, [sum(a)])
+
+
+@as_macro_node("out")
+def MF(self, x):
+    """the macro's IO is value-linked straight to a nested macro's IO (input down, output up)"""
+    self.inner = MA(x=x)
+    return self.inner
+
+
+MACROS = {"MF": (MF, ["x"], ["out"]), "MA": (MA, ["x"], ["out"]), "MB": (MB, ["x", "y"], ["out"]), "MC": (MC, ["x", "y"], ["out"]),
           "MD": (MD, ["x"], ["oa", "ob"]), "ME": (ME, ["x", "y"], ["out"])}
 
 
